@@ -98,6 +98,11 @@ fn one(bytes: &[u8], truth: &refclass::Sem, tag: &str, tally: &mut BTreeMap<Stri
 }
 
 fn main() {
+    let args: Vec<String> = std::env::args().collect();
+    if args.get(1).map(|s| s.as_str()) == Some("craft") {
+        craft(args.get(2).map(|s| s.as_str()).unwrap_or("crafted"));
+        return;
+    }
     let mut tally = BTreeMap::new();
     for (name, bytes) in CORPUS {
         let truth = parse(bytes).expect("corpus parses");
@@ -118,6 +123,9 @@ fn main() {
         };
         let mut m = gen_class(&mut r, &cfg);
         admit::admit(&mut m);
+        if seed % 3 == 0 {
+            admit::misplace_names(&mut m, &mut |n| refclass::Choice::below(&mut r, n));
+        }
         if std::env::var("SURVEY_RAW").is_err() {
             admit::apply_avoid(&mut m, admit::avoid::ALL);
         }
@@ -134,3 +142,76 @@ fn main() {
     }
 }
 
+
+// ------------------------------------------------------------------------------------------------------------------
+// `c01_survey craft <dir>`: hand-made replay plans for suspected defects that a single random bit flip reaches only
+// in very large methods (DESIGN.md section 6, item 5: unchecked u16 / i32 arithmetic in the code reader). Each plan is
+// an ordinary C01 replay file (`./check C01 --replay <file>`): a class, one layout, one flipped bit.
+
+fn hex(b: &[u8]) -> String {
+    b.iter().map(|x| format!("{x:02x}")).collect()
+}
+
+fn layout_json(ext: u32) -> serde_json::Value {
+    serde_json::json!({"seed": 0, "cp_order": 0, "cp_duplicates": 0, "cp_unused": 0, "bsm_duplicates": 0, "shuffle_attrs": false, "p_ldc_w": 0, "p_local_explicit": 0,
+        "p_local_wide": 0, "p_iinc_wide": 0, "p_goto_w": 0, "frames": 0, "p_frame_extended": ext, "split_line_numbers": 1, "split_local_vars": 1, "lvt_before_lnt": false})
+}
+
+fn craft_one(dir: &str, name: &str, m: &refclass::Sem, ext: u32, span_suffix: &str, nth: usize, byte: usize, bit: u8, what: &str) {
+    use refclass::enc::{FrameEnc, Layout};
+    let pristine = encode(m, &Layout::default()).expect("encodes").bytes;
+    assert_eq!(parse(&pristine).as_ref(), Ok(m));
+    let layout = Layout { p_frame_extended: ext, frames: FrameEnc::Compact, ..Layout::default() };
+    let enc = encode(m, &layout).expect("encodes");
+    let span = enc.map.iter().filter(|s| s.path.ends_with(span_suffix) && (span_suffix != ".length" || s.path.contains("LocalVariableTable"))).nth(nth).unwrap_or_else(|| panic!("no span *{span_suffix} #{nth}"));
+    let off = span.start + byte;
+    let plan = serde_json::json!({
+        "origin": format!("hand-made: {what}; flips bit {bit} of byte {byte} of `{}` (offset {off})", span.path),
+        "class_hex": hex(&pristine), "raw_input": false, "layouts": [layout_json(ext)], "target": 0, "legal": null, "tail": 0,
+        "faulty": {"seed": 0, "max_chunk": 0, "short_pct": 0, "eintr_pct": 0, "faults": [{"kind": "flip", "off": off, "bit": bit}]}, "aims": []});
+    let file = serde_json::json!({"property": "C01", "identity": "", "note": what, "plan": plan});
+    let path = format!("{dir}/{name}.json");
+    std::fs::write(&path, serde_json::to_string_pretty(&file).unwrap()).unwrap();
+    println!("wrote {path}");
+}
+
+fn craft(dir: &str) {
+    use refclass::sem::*;
+    use refclass::JStr;
+    std::fs::create_dir_all(dir).unwrap();
+    let class = |code: Code| Sem {
+        major: 52,
+        access: 0x21,
+        this_class: JStr::from_str("Crafted"),
+        super_class: Some(JStr::from_str("java/lang/Object")),
+        methods: vec![Method { access: 0x9, name: JStr::from_str("m"), desc: JStr::from_str("()V"), code: Some(code), ..Method::default() }],
+        ..Sem::default()
+    };
+    // (a) tableswitch: the sign bit of `low` -> `high - low` leaves i32
+    let code = Code { max_stack: 1, max_locals: 0, insns: vec![Insn::Simple(3), Insn::TableSwitch { default: 2, low: 0, targets: vec![2, 2] }, Insn::Simple(177)], ..Code::default() };
+    craft_one(dir, "overflow-tableswitch-high-minus-low", &class(code), 0, ".low", 0, 0, 7, "tableswitch with low=0 high=1; low becomes i32::MIN, so `high - low + 1` overflows i32");
+    // big straight-line code for the u16 cases
+    let big = |n: usize| -> Vec<Insn> {
+        let mut v = vec![Insn::Simple(0); n];
+        v.push(Insn::Simple(177));
+        v
+    };
+    // (b) StackMapTable: offset 33000, then offset_delta 9 -> 32777: `offset += offset_delta + 1` leaves u16
+    let code = Code {
+        max_stack: 0,
+        max_locals: 0,
+        insns: big(34000),
+        frames: vec![Frame { at: 33000, locals: vec![], stack: vec![] }, Frame { at: 33010, locals: vec![], stack: vec![] }],
+        ..Code::default()
+    };
+    craft_one(dir, "overflow-frame-offset-delta", &class(code), 100, ".offset_delta", 1, 0, 7, "two same_frame_extended frames at 33000 and 33010; the second offset_delta 9 becomes 32777, so `offset += offset_delta + 1` overflows u16");
+    // (c) LocalVariableTable: start_pc 33000 length 10 -> 32778: `start_pc + length` leaves u16
+    let code = Code {
+        max_stack: 0,
+        max_locals: 1,
+        insns: big(34000),
+        local_vars: vec![LocalVar { start: 33000, end: 33010, name: JStr::from_str("x"), desc: JStr::from_str("I"), slot: 0 }],
+        ..Code::default()
+    };
+    craft_one(dir, "overflow-local-variable-range", &class(code), 0, ".length", 0, 0, 7, "local variable with start_pc 33000 length 10; length becomes 32778, so `start_pc + length` overflows u16");
+}
